@@ -12,6 +12,7 @@ compiles): see runner.check.
 import fcntl
 import json
 import os
+import re
 import shutil
 import subprocess
 import time
@@ -122,6 +123,17 @@ def run_units(units, timeout=1500):
                             out[u] = {'status': status, 'detail': d, 'harness': wanted.get(u, {}),
                                       'cmd': ' '.join(cmd), 'scratch': 'copy of /repo working tree + /verif/cex harness modules'}
                         break
+            # a harness whose test thread panicked WITHOUT printing a VERIF-CEX line: the real code
+            # crashed on an enumerated input (index out of bounds, overflow, unwrap on None ...)
+            allout = stdout + '\n' + stderr
+            for u, h in wanted.items():
+                if u in out:
+                    continue
+                m = re.search(r"thread '[^']*%s'[^\n]*? panicked at ([^\n]*)\n([^\n]*)" % re.escape(h['test']), allout)
+                if m and 'counterexample for unit' not in m.group(2):
+                    out[u] = {'status': 'cex', 'detail': {'unit': u, 'what': 'the real code panicked inside the harness (crash on an enumerated input)',
+                                                         'panic_at': m.group(1).strip(), 'panic_message': m.group(2).strip()},
+                              'harness': h, 'cmd': ' '.join(cmd), 'scratch': 'copy of /repo working tree + /verif/cex harness modules'}
             for u in wanted:
                 if u not in out:
                     tail = '\n'.join((stderr or '').splitlines()[-15:])
